@@ -1,6 +1,8 @@
 package main
 
 import (
+	"runtime/debug"
+	"runtime/pprof"
 	"encoding/json"
 	"flag"
 	"fmt"
@@ -30,9 +32,17 @@ func main() {
 		fmt.Fprintln(os.Stderr, "usage: gosmt run|check|replay ...")
 		os.Exit(2)
 	}
+	debug.SetGCPercent(400)
+	if pf := os.Getenv("VERIF_PPROF"); pf != "" {
+		f, _ := os.Create(pf)
+		pprof.StartCPUProfile(f)
+		defer pprof.StopCPUProfile()
+	}
 	switch os.Args[1] {
 	case "run":
-		os.Exit(cmdRun(os.Args[2:]))
+		rc := cmdRun(os.Args[2:])
+		pprof.StopCPUProfile()
+		os.Exit(rc)
 	case "check":
 		os.Exit(cmdCheck(os.Args[2:]))
 	case "replay":
